@@ -23,6 +23,14 @@ def mk_bad(t):
     return {"dict": {"a": 1}, "set": {1}, "bytes": b"x", "object": object(), "complex": 1j, "module": sys, "frozenset": frozenset()}[t]
 
 
+class _Row(tuple):
+    """a tuple subclass (what a NamedTuple / namedtuple row is)"""
+
+
+class _Items(list):
+    """a list subclass (a user's own collection type)"""
+
+
 def build_arg(r):
     import htmltools as h
 
@@ -36,6 +44,10 @@ def build_arg(r):
             return tuple(items)
         if t == "taglist":
             return h.TagList(*items)
+        if t == "tuplesub":
+            return _Row(items)
+        if t == "listsub":
+            return _Items(items)
         return items
     return build(r)
 
@@ -81,7 +93,7 @@ def args(bad_ok=True):
     sc = scalars(bad_ok)
 
     def lst(ch):
-        return st.builds(lambda t, k: {"k": "list", "t": t, "kids": k}, st.sampled_from(["list", "tuple", "taglist"]), st.lists(ch, max_size=3))
+        return st.builds(lambda t, k: {"k": "list", "t": t, "kids": k}, st.sampled_from(["list", "tuple", "taglist", "list", "tuple", "taglist", "tuplesub", "listsub"]), st.lists(ch, max_size=3))
 
     n = st.one_of(sc, lst(sc))
     n = st.one_of(sc, sc, lst(n))
@@ -382,7 +394,10 @@ def body(case, note):
         _all_nodes(real, name)
         if tag is not None:
             check(tag.children is real, "Tag.children was replaced by a different list object")
-    note(n_mut >= 3 and deep and failed_then_ok, *sorted(classes), "on-tag" if case["on_tag"] else "on-list")
+    import json as _json
+
+    blob = _json.dumps(case, default=str)
+    note(n_mut >= 3 and deep and failed_then_ok, *sorted(classes), "on-tag" if case["on_tag"] else "on-list", "container-subclass" if '"tuplesub"' in blob or '"listsub"' in blob else "")
 
 
 def _all_nodes(tl, label):
@@ -446,7 +461,7 @@ CLAUSES = [
         quick=800,
         thorough=12000,
         shards_quick=4,
-        required=("op:append", "op:extend", "op:insert", "op:add", "op:radd", "op:iadd", "op:iadd_str", "op:slice", "op:mul", "op:extend_str", "op:shared", "rejected:insert", "rejected:iadd", "on-tag", "on-list"),
+        required=("op:append", "op:extend", "op:insert", "op:add", "op:radd", "op:iadd", "op:iadd_str", "op:slice", "op:mul", "op:extend_str", "op:shared", "rejected:insert", "rejected:iadd", "on-tag", "on-list", "container-subclass"),
         rule="see RULE",
     ),
     Clause("is-child", body_is_child, strategy=lambda: st.fixed_dictionaries({"arg": args().map(taglist_safe)}), quick=600, thorough=5000, shards_quick=1, shards_thorough=4, required=("kind:num:int", "kind:num:float", "rejected"), rule="every case"),
